@@ -19,6 +19,18 @@ def worker(payload):
         scs.append(to_model(w, sc))
         keep.append((w, sc))
     res = run_driver(scs)
+    # specification run, independent of the model's locking / propagation logic: keep exactly the operations the
+    # real code accepted, let no lock refuse them, and ask for the overlay semantics of every call
+    spec_scs, spec_idx = [], []
+    for (w, sc), im, m in zip(keep, impls, scs):
+        ops2, idx = [], []
+        for j, (op, b) in enumerate(zip(sc["ops"], im)):
+            if op[0] == "call" or b["o"] == ["ok"]:
+                idx.append(j)
+                ops2.append(op)
+        spec_scs.append({**m, "ops": ops2, "ignoreLocks": True})
+        spec_idx.append(idx)
+    spec_res = run_driver(spec_scs)
     out = {"ops": 0, "corr": [], "hist": {}, "samples": [], "oracles": {}}
 
     def orc(name):
@@ -31,9 +43,15 @@ def worker(payload):
     for i, (r, im) in enumerate(zip(res, impls)):
         w, sc = keep[i]
         desc = {"world": w.desc, "scenario": sc}
-        if "error" in r:
-            out["corr"].append({"layer": "G", "kind": "driver-error", "detail": r["error"], "scenario": desc})
+        if "error" in r or "error" in spec_res[i]:
+            out["corr"].append({"layer": "G", "kind": "driver-error", "detail": r.get("error") or spec_res[i].get("error"), "scenario": desc})
             continue
+        exp_of = {}
+        for pos, j in enumerate(spec_idx[i]):
+            e = spec_res[i]["ops"][pos].get("exp")
+            if e is not None:
+                exp_of[j] = e
+        corr_ok = True
         used = set()
         addmix_after_use = False
         for j, (a, b) in enumerate(zip(r["ops"], im)):
@@ -44,14 +62,14 @@ def worker(payload):
             if ma.get("o", [None])[0] == "ambiguous":
                 ma["o"] = ["ambiguous"]
             mb = {k: v for k, v in b.items() if k in ("o", "t", "locked")}
-            if ma != mb:
+            if corr_ok and ma != mb:
                 out["corr"].append({"layer": "G", "op_index": j, "op": op, "model": ma, "impl": mb, "scenario": desc})
-                break
+                corr_ok = False  # keep evaluating the oracle, which does not depend on the model's state
             if op[0] == "addmix" and used:
                 addmix_after_use = True
             if op[0] != "call":
                 continue
-            e = a["exp"]
+            e = exp_of.get(j, a.get("exp"))
             if e["o"] and e["o"][0] == "ambiguous":
                 e["o"] = ["ambiguous"]
             o16 = orc("C16")
